@@ -12,6 +12,7 @@ import (
 	"runtime/debug"
 	"strings"
 	"sync"
+	"sync/atomic"
 
 	"github.com/VictoriaMetrics/metrics"
 	"reduction.dev/reduction/dkv/bloom"
@@ -45,6 +46,10 @@ type Table struct {
 	endSeqNum      uint64
 	metadataLoaded bool
 	metadataMu     sync.Mutex // Protects metadataLoaded field and loadFooter calls
+
+	// keepFile is set when the table's file must outlive this Table object. It
+	// is shared with the cleanup function, which must not reference the table.
+	keepFile *atomic.Bool
 }
 
 // NewTable initializes a new, empty table
@@ -54,13 +59,21 @@ func NewTable(file storage.File) *Table {
 		searchIndex: &SearchIndex{},
 		filter:      bloom.NewFilter(32*size.KB, 5),
 		size:        0,
+		keepFile:    &atomic.Bool{},
 	}
 
-	runtime.AddCleanup(t, func(f func() error) {
-		if err := f(); err != nil {
+	type CleanupParams struct {
+		deleteFunc func() error
+		keepFile   *atomic.Bool
+	}
+	runtime.AddCleanup(t, func(p CleanupParams) {
+		if p.keepFile.Load() {
+			return
+		}
+		if err := p.deleteFunc(); err != nil {
 			slog.Error("table cleanup", "err", err)
 		}
-	}, file.CreateDeleteFunc())
+	}, CleanupParams{deleteFunc: file.CreateDeleteFunc(), keepFile: t.keepFile})
 
 	return t
 }
@@ -89,10 +102,12 @@ func NewTableFromDocument(fs storage.FileSystem, dataOwnership kv.DataOwnership,
 		endKey:      []byte(doc.EndKey),
 		startSeqNum: doc.StartSeqNum,
 		endSeqNum:   doc.EndSeqNum,
+		keepFile:    &atomic.Bool{},
 	}
 
 	type CleanupParams struct {
 		deleteFunc    func() error
+		keepFile      *atomic.Bool
 		dataOwnership kv.DataOwnership
 		startKey      []byte
 		endKey        []byte
@@ -100,6 +115,7 @@ func NewTableFromDocument(fs storage.FileSystem, dataOwnership kv.DataOwnership,
 	}
 	params := CleanupParams{
 		deleteFunc:    t.file.CreateDeleteFunc(),
+		keepFile:      t.keepFile,
 		dataOwnership: dataOwnership,
 		startKey:      []byte(doc.StartKey),
 		endKey:        []byte(doc.EndKey),
@@ -107,6 +123,9 @@ func NewTableFromDocument(fs storage.FileSystem, dataOwnership kv.DataOwnership,
 	}
 
 	runtime.AddCleanup(t, func(p CleanupParams) {
+		if p.keepFile.Load() {
+			return
+		}
 		canDelete, err := p.dataOwnership.ExclusivelyOwnsTable(p.uri, p.startKey, p.endKey)
 		if err != nil {
 			slog.Error("failed determining exclusive ownership, not deleting", "err", err, "uri", p.uri)
@@ -121,6 +140,12 @@ func NewTableFromDocument(fs storage.FileSystem, dataOwnership kv.DataOwnership,
 	}, params)
 
 	return t
+}
+
+// KeepFile makes the table's file outlive the Table object: the file is no
+// longer deleted when the object is garbage collected.
+func (t *Table) KeepFile() {
+	t.keepFile.Store(true)
 }
 
 func (t *Table) Get(key []byte) (kv.Entry, error) {
